@@ -75,11 +75,16 @@ def alphabet(world):
             if t != aave.WETH:
                 b = STATED[t.name] / 5
                 out.append(Op(f"borrow[{t.name}]", lambda c, t=t, b=b: do("borrow", t, b, lambda: m.borrow(t, b)), False, "borrow"))
+            if t == aave.USDC:
+                big = STATED[t.name] * Decimal("0.45")  # more than the DAI supply is worth: repaying it with DAI collateral hits the cap
+                out.append(Op(f"borrow[{t.name},big]", lambda c, t=t, big=big: do("borrow", t, big, lambda: m.borrow(t, big)), False, "borrow"))
             if t in m._borrows:
                 b = STATED[t.name] / 11
                 out.append(Op(f"repay[{t.name},part]", lambda c, t=t, b=b: do("repay", t, b, lambda: m.repay(t, b), "cash"), False, "repay"))
                 out.append(Op(f"repay[{t.name},None]", lambda c, t=t: do("repay", t, None, lambda: m.repay(t), "cash"), True, "repay"))
                 out.append(Op(f"repay[{t.name},part,self]", lambda c, t=t, b=b: do("repay", t, b, lambda: m.repay(t, b, True), t.name), True, "repay"))
+                if aave.DAI in m._supplies and t != aave.DAI:
+                    out.append(Op(f"repay[{t.name},None,DAI]", lambda c, t=t: do("repay", t, None, lambda: m.repay(t, None, True, aave.DAI), "DAI"), True, "repay"))
                 out.append(Op(f"repay[{t.name},part,WETH]",
                               lambda c, t=t, b=b: do("repay", t, b, lambda: m.repay(t, b, True, aave.WETH), "WETH"), True, "repay"))
         return out
@@ -120,6 +125,12 @@ class Oracle:
             else:
                 cli, _ = ad.indices(mode)
                 need = a * F(row[t]) / F(row[mode])
+                have = md["sup"][mode] * cli
+                if need > have:
+                    # the chosen collateral is worth less than the repayment asked for: the whole collateral is used and the repayment shrinks to its worth
+                    need = have
+                    a = have * F(row[mode]) / F(row[t])
+                    info["amount"] = "capped"
                 md["sup"][mode] -= need / cli
                 if md["sup"][mode] * cli < EPS:
                     del md["sup"][mode]
@@ -201,7 +212,7 @@ class Oracle:
                 after = md["bor"].get(t, Fraction(0)) * bi
                 rec_after = F(a.debt_after)
             stated = info["amount"]
-            if stated not in (None, "all") and F(a.amount) != F(stated):
+            if stated not in (None, "all", "capped") and F(a.amount) != F(stated):
                 part.violation(f"C10|{op.kind}|action-amount", "action record does not state the requested amount", {"history": list(hist)},
                                {"recorded": float(a.amount), "stated": float(stated)})
             if abs(rec_after - after) > EPS + abs(after) / 10**25:
